@@ -49,6 +49,7 @@ class WorldT:
     def install(self) -> None:
         self.seams.quiet_logging()
         self.seams.reset_globals(self.cfg.get("tables"))
+        self.seams.install_consts(self.cfg.get("consts"))
         self.seams.install_time(self.clock)
         self.seams.install_random(self.choices.stream("spa.random"))
         self.seams.install_socket(self._socket_factory)
